@@ -24,6 +24,39 @@ EXTRA={
             '//@ ensures internal [C07] applied: exists && output.data == respInt(1) ==> sk.expiresAt == expiration',
             '//@ ensures internal [C07] kept: exists && output.data != respInt(1) ==> sk.expiresAt == old(sk.expiresAt)',
             '//@ ensures internal [C07] missing: !exists ==> output.data == respInt(0) && !mutated'],
+ 'bitfieldWrite': ['//@ requires !gApplied',
+            '//@ requires [C13,C18] ops.wf: allabs(i, 0, len(ops), bfOpWF(ops[i]))',
+            '//@ assertbefore "bits := op.width" dbg.wf: bfOpWF(op)',
+            '//@ loop 1 invariant [C18] length.range: 0 <= length && length < (1<<32) + 64',
+            '//@ loop 1 invariant [C18] length.covers: allsel(i, 0, ri1, ops[i].op == BF_GET || ops[i].endOffset <= length)',
+            '//@ ghostbefore "results = append(results, respInt(newValue))" : gApplied = true',
+            '//@ ghostbefore "results = append(results, respInt(n))" : gApplied = true',
+            '//@ loop 2 invariant [C18] applied: gApplied ==> changed',
+            '//@ loop 2 invariant [C18] sized: len(strBytes) >= length && length >= 1 && length < (1<<29) + 16',
+            '//@ loop 2 invariant [C18] covers: allsel(i, 0, len(ops), ops[i].op == BF_GET || ops[i].endOffset/8 < length)',
+            '//@ assertbefore "setBitfield(strBytes, op.bitOffset, op.width, newValue)" [C18] store.inrange.signed.set: op.signed && op.op == BF_SET && specBfDir(true, true, n, op.value, op.width) == 0 ==> newValue == specBfTarget(true, n, op.value)',
+            '//@ assertbefore "setBitfield(strBytes, op.bitOffset, op.width, newValue)" [C18] store.wrap.signed.set: op.signed && op.op == BF_SET && specBfDir(true, true, n, op.value, op.width) != 0 && op.oflow == OFLOW_WRAP ==> newValue == specBfWrap(true, specBfTarget(true, n, op.value), op.width)',
+            '//@ assertbefore "setBitfield(strBytes, op.bitOffset, op.width, newValue)" [C18] store.sat.signed.set: op.signed && op.op == BF_SET && specBfDir(true, true, n, op.value, op.width) != 0 && op.oflow == OFLOW_SAT ==> newValue == specBfLimit(true, specBfDir(true, true, n, op.value, op.width), op.width)',
+            '//@ assertbefore "setBitfield(strBytes, op.bitOffset, op.width, newValue)" [C18] store.notfail.signed.set: op.signed && op.op == BF_SET ==> !(specBfDir(true, true, n, op.value, op.width) != 0 && op.oflow == OFLOW_FAIL)',
+            '//@ assertbefore "results = append(results, nil)" [C18] fail.iff.signed.set: op.signed && op.op == BF_SET ==> specBfDir(true, true, n, op.value, op.width) != 0 && op.oflow == OFLOW_FAIL',
+            '//@ assertbefore "setBitfield(strBytes, op.bitOffset, op.width, newValue)" [C18] store.inrange.signed.incrby: op.signed && op.op != BF_SET && specBfDir(true, false, n, op.value, op.width) == 0 ==> newValue == specBfTarget(false, n, op.value)',
+            '//@ assertbefore "setBitfield(strBytes, op.bitOffset, op.width, newValue)" [C18] store.wrap.signed.incrby: op.signed && op.op != BF_SET && specBfDir(true, false, n, op.value, op.width) != 0 && op.oflow == OFLOW_WRAP ==> newValue == specBfWrap(true, specBfTarget(false, n, op.value), op.width)',
+            '//@ assertbefore "setBitfield(strBytes, op.bitOffset, op.width, newValue)" [C18] store.sat.signed.incrby: op.signed && op.op != BF_SET && specBfDir(true, false, n, op.value, op.width) != 0 && op.oflow == OFLOW_SAT ==> newValue == specBfLimit(true, specBfDir(true, false, n, op.value, op.width), op.width)',
+            '//@ assertbefore "setBitfield(strBytes, op.bitOffset, op.width, newValue)" [C18] store.notfail.signed.incrby: op.signed && op.op != BF_SET ==> !(specBfDir(true, false, n, op.value, op.width) != 0 && op.oflow == OFLOW_FAIL)',
+            '//@ assertbefore "results = append(results, nil)" [C18] fail.iff.signed.incrby: op.signed && op.op != BF_SET ==> specBfDir(true, false, n, op.value, op.width) != 0 && op.oflow == OFLOW_FAIL',
+            '//@ assertbefore "setBitfield(strBytes, op.bitOffset, op.width, newValue)" [C18] store.inrange.unsigned.set: !op.signed && op.op == BF_SET && specBfDir(false, true, n, op.value, op.width) == 0 ==> newValue == specBfTarget(true, n, op.value)',
+            '//@ assertbefore "setBitfield(strBytes, op.bitOffset, op.width, newValue)" [C18] store.wrap.unsigned.set: !op.signed && op.op == BF_SET && specBfDir(false, true, n, op.value, op.width) != 0 && op.oflow == OFLOW_WRAP ==> newValue == specBfWrap(false, specBfTarget(true, n, op.value), op.width)',
+            '//@ assertbefore "setBitfield(strBytes, op.bitOffset, op.width, newValue)" [C18] store.sat.unsigned.set: !op.signed && op.op == BF_SET && specBfDir(false, true, n, op.value, op.width) != 0 && op.oflow == OFLOW_SAT && op.value >= 0 ==> newValue == specBfLimit(false, specBfDir(false, true, n, op.value, op.width), op.width)',
+            '//@ assertbefore "setBitfield(strBytes, op.bitOffset, op.width, newValue)" [C18] store.notfail.unsigned.set: !op.signed && op.op == BF_SET ==> !(specBfDir(false, true, n, op.value, op.width) != 0 && op.oflow == OFLOW_FAIL)',
+            '//@ assertbefore "results = append(results, nil)" [C18] fail.iff.unsigned.set: !op.signed && op.op == BF_SET ==> specBfDir(false, true, n, op.value, op.width) != 0 && op.oflow == OFLOW_FAIL',
+            '//@ assertbefore "setBitfield(strBytes, op.bitOffset, op.width, newValue)" [C18] store.inrange.unsigned.incrby: !op.signed && op.op != BF_SET && specBfDir(false, false, n, op.value, op.width) == 0 ==> newValue == specBfTarget(false, n, op.value)',
+            '//@ assertbefore "setBitfield(strBytes, op.bitOffset, op.width, newValue)" [C18] store.wrap.unsigned.incrby: !op.signed && op.op != BF_SET && specBfDir(false, false, n, op.value, op.width) != 0 && op.oflow == OFLOW_WRAP ==> newValue == specBfWrap(false, specBfTarget(false, n, op.value), op.width)',
+            '//@ assertbefore "setBitfield(strBytes, op.bitOffset, op.width, newValue)" [C18] store.sat.unsigned.incrby: !op.signed && op.op != BF_SET && specBfDir(false, false, n, op.value, op.width) != 0 && op.oflow == OFLOW_SAT ==> newValue == specBfLimit(false, specBfDir(false, false, n, op.value, op.width), op.width)',
+            '//@ assertbefore "setBitfield(strBytes, op.bitOffset, op.width, newValue)" [C18] store.notfail.unsigned.incrby: !op.signed && op.op != BF_SET ==> !(specBfDir(false, false, n, op.value, op.width) != 0 && op.oflow == OFLOW_FAIL)',
+            '//@ assertbefore "results = append(results, nil)" [C18] fail.iff.unsigned.incrby: !op.signed && op.op != BF_SET ==> specBfDir(false, false, n, op.value, op.width) != 0 && op.oflow == OFLOW_FAIL',
+            '//@ assertbefore "results = append(results, n)" [C18] get.value: (op.signed && n == specSignExtend(int64(specField(strBytes, op.bitOffset, op.width)), op.width)) || (!op.signed && uint64(n) == specField(strBytes, op.bitOffset, op.width))',
+            '//@ ensures internal [C18] write.stored: gApplied ==> dsc.ds.data.vdom[keyName] && istype(dsc.ds.data.vval[keyName], *storeKey) && istype(unbox(dsc.ds.data.vval[keyName], *storeKey).payload, []byte) && len(unbox(unbox(dsc.ds.data.vval[keyName], *storeKey).payload, []byte)) >= length && flagHasOne(unbox(dsc.ds.data.vval[keyName], *storeKey).flags, FLAG_KEY_TYPE_STRING)',
+            '//@ ensures internal [C18] write.expiry: gApplied && exists ==> unbox(dsc.ds.data.vval[keyName], *storeKey).expiresAt == old(sk.expiresAt)'],
  'scan': ['//@ requires free tablesize: dictSized(dsc.ds.data)'],
  'lmpop': ['//@ loop "for _, keyName := range keyNames" invariant [C06] nomut: !mutated'],
  'addInt': ['//@ ghostafter "value, err = strconv.ParseInt" : gParsed = value',
